@@ -15,7 +15,7 @@ DEPS = {'C01': ['classes', 'simplify', 'shapes', 'lookup', 'values'],
 
 GROUP_THEOREMS = {
     'classes': ['get_valid_classes_is_model', 'get_valid_classes_refuses', 'get_multiplicity_is_model'],
-    'simplify': ['is_constant_is_model', 'is_repeating_is_model', 'get_const_period_is_model'],
+    'simplify': ['is_constant_is_model', 'is_repeating_is_model', 'get_const_period_is_model', 'simplify_is_model'],
     'lookup': ['get_meta_index_is_model', 'meta_valid_is_model'],
     'valid': ['check_valid_is_model'],
     'shapes': ['subset_shape_is_model', 'merge_shape_is_model'],
